@@ -10,7 +10,7 @@ THEOREMS = ['Tbox.C20.C20_weekly_earliest', 'Tbox.C20.C20_weekly_empty_mask', 'T
             'Tbox.C20.C20_targets_strictly_increase', 'Tbox.C20.C20_enable_after_disable_earliest',
             'Tbox.C20.C20_stale_target_counterexample', 'Tbox.C20.C20_oneshot_once', 'Tbox.C20.C20_oneshot_expiry_idle', 'Tbox.C20.C20_disabled_never_fires',
             'Tbox.C20.C20_fired_was_enabled', 'Tbox.C20.C20_watch_alive', 'Tbox.C20.C20_destroy_unpatched_counterexample',
-            'Tbox.C20.C20_world_callbacks_enabled', 'Tbox.C20.C20_once_per_instant_partial', 'Tbox.C20.C20_world_targets_increase',
+            'Tbox.C20.C20_world_callbacks_enabled', 'Tbox.C20.C20_once_per_instant', 'Tbox.C20.C20_refresh_in_early_callback_fixed', 'Tbox.C20.C20_world_targets_increase',
             'Tbox.C20.C20_refresh_in_early_callback_counterexample', 'Tbox.C20.C20_cron_earliest', 'Tbox.C20.C20_cron_none',
             'Tbox.C20.wExec_inv']
 SOURCES = ['modules/alarm/alarm.cpp', 'modules/alarm/weekly_alarm.cpp', 'modules/alarm/oneshot_alarm.cpp',
@@ -23,12 +23,12 @@ BATCH_TIMEOUT = 60
 CASE_TIMEOUT = 10
 SHRINK_TESTS = 60
 MAX_REPORT = 3
-HARNESS_ENV = {'TZ': 'UTC'}
+HARNESS_ENV = {'TZ': 'VRF-3'}
 TRUSTED = ['model lean/TboxModel/C20/Model.lean hand-written from modules/alarm/{alarm,weekly_alarm,oneshot_alarm,workday_alarm,workday_calendar}.cpp; '
            'tied by differential runs: probe subclasses for calculateNextLocalTimeSec, real alarms on the real epoll loop for arming/firing',
            'the loop TimerEvent under the alarm is the C02 timer (one-shot, fires in the first pass with mono >= armed-at + delay); '
            'here it is one optional deadline per alarm',
-           'virtual wall + monotonic clocks by libc interposition (harness/vtime.h); system time zone fixed to UTC (TZ=UTC) when setTimezone() was not called',
+           'virtual wall + monotonic clocks by libc interposition (harness/vtime.h); system time zone pinned to UTC+3 without DST (TZ=VRF-3; model sysOffset) for alarms without setTimezone()',
            'cron alarm: CronAlarm delegates to the THIRD-PARTY evaluator ccronexpr (modules/alarm/3rd-party), which is not modelled; it is tied BY '
            'CORRESPONDENCE ONLY to the independent reference lean/TboxModel/C20/Cron.lean (proved to return the declaratively earliest matching '
            'instant) for expression shapes `sec min hour dom mon dow` built from lists, ranges, steps and *; day rule as ccronexpr implements it: '
@@ -183,7 +183,7 @@ def gen_history(rng, nsteps):
                     acts.append('cs' + ('+'.join('%d:%d' % (day + rng.randrange(0, 9), rng.randrange(2)) for _ in range(rng.randrange(0, 3))) or '-'))
             script = ','.join(acts) or '-'
         ops.append('new %d %s %s' % (i, kind, script) if script != '-' or rng.random() < 0.5 else 'new %d %s' % (i, kind))
-        a = {'kind': kind, 'sod': 0, 'mask': 127, 'wd': True, 'tz': 0, 'on': False}
+        a = {'kind': kind, 'sod': 0, 'mask': 127, 'wd': True, 'tz': 180, 'on': False}
         al[i] = a
         if rng.random() < 0.7:
             a['tz'] = rng.choice(range(-12 * 60, 14 * 60 + 1, 15))
@@ -255,7 +255,7 @@ def gen_history(rng, nsteps):
             ops.append('cl %d' % i); al[i]['on'] = False
             if rng.random() < 0.7: ops.append('cb %d' % i)
             if rng.random() < 0.8:        # cleanup() forgets time zone / target / callback: re-initialise and enable again
-                a = al[i]; a['tz'] = 0
+                a = al[i]; a['tz'] = 180
                 ops.append('init %d %d %s %d' % (i, a['sod'], mask_text(a['mask']) if a['kind'] == 'wk' else '-', 1 if a['wd'] else 0))
                 ops.append('en %d' % i); a['on'] = True
         elif r < 0.965:
@@ -359,7 +359,7 @@ def gen(rng, tier):
            'cron * * * * * 8 5', 'cron 5-3 * * * * * 5', 'cron */0 * * * * * 5', 'cron 0 0 0 * * 7 1700000000', 'cron 0 0 0 13 * 5 1700000000',
            'cron 0 0 0 29 2 * 1700000000', 'cron 50/4 * * * * * 1700000000', 'cron 59 59 23 31 12 * 1700000000', 'cron 0 0 0 1 1 * 4102444799',
            'cron 0 0 12 1,15 * 1-5 951782400']
-    # a callback that refreshes its own alarm on an early wake-up (monotonic ahead of wall): the instant is armed again
+    # a callback that refreshes its own alarm on an early wake-up (monotonic ahead of wall): the served instant must not be armed again
     yield ['new 0 wk rf0', 'init 0 100 1111111 1', 'tz 0 0', 'wall 86400000000', 'en 0', 'mono 5', 'adv 99995', 'adv 5', 'adv 86400000']
     # destruction: enabled workday alarm, and one whose enable() failed, then a calendar update
     yield ['new 0 wd', 'init 0 100 - 1', 'en 0', 'del 0', 'calmask 62', 'calmask 0', 'new 0 wd', 'init 0 100 - 1', 'en 0', 'del 0', 'calsp -']
@@ -394,7 +394,6 @@ LEVEL_TEXT = ('Lean 4 theorems over a model of the alarm module: the next-instan
               '(probe subclasses + real alarms on the real loop under virtual wall/monotonic clocks, ASan+UBSan)')
 LEVEL_NOTE = ('trusted: Lean kernel, hand-written model + trace-acceptor tie (coverage bounded by the generator, measured), C02 timer semantics, clock '
               'interposition; PARTIAL: the cron alarm uses the third-party evaluator ccronexpr, tied by correspondence only to a proved reference semantics; '
-              'once-per-instant is proved under clear ghost flags (no refresh()/enable() while the wall clock is behind an instant already served — '
-              'counterexample kept); theorems exclude the last 368 days of the uint32 epoch range and local times before 1970')
+              'theorems exclude the last 368 days of the uint32 epoch range and local times before 1970')
 TECHNIQUE = 'Lean 4 proofs (earliest-instant characterisation, arming arithmetic, state-machine invariants) + model/implementation correspondence check'
 DESIGN_REF = 'DESIGN.md §6 C20, §7 row 16'
